@@ -165,6 +165,18 @@ def leaked_attribute_names(o: Any, path: str = "$") -> Optional[str]:
     return None
 
 
+def _all_keys(o: Any) -> set:
+    ks: set = set()
+    if isinstance(o, dict):
+        for k, v in o.items():
+            ks.add(k)
+            ks |= _all_keys(v)
+    elif isinstance(o, list):
+        for v in o:
+            ks |= _all_keys(v)
+    return ks
+
+
 def _has_alias_or_extra(cls: type, w: Dict[str, Any]) -> bool:
     def walk(o: Any) -> bool:
         if isinstance(o, dict):
@@ -346,6 +358,8 @@ def check_serialiser(case: Dict[str, Any]) -> Outcome:
         out.fail("harness-error-in-serialiser-case", f"{spec['name']}: {type(e).__name__}: {e}")
         return out
     leak = leaked_attribute_names(produced)
+    if leak and leak.rsplit(".", 1)[-1] in _all_keys(ws):
+        leak = None  # the generated payload itself contains that key: not a leaked attribute name
     if leak:
         out.fail(f"attribute-name-instead-of-wire-name:{spec['name'].split('(')[0]}", f"{spec['name']}: key at {leak} in produced wire data {produced!r}"[:600])
         return out
